@@ -12,6 +12,8 @@ import (
 	"k8s.io/apimachinery/pkg/types"
 	"k8s.io/utils/ptr"
 
+	xpv1 "github.com/crossplane/crossplane-runtime/apis/common/v1"
+
 	v1 "github.com/crossplane/crossplane/apis/apiextensions/v1"
 
 	"github.com/crossplane/crossplane/verifsim/sim"
@@ -20,9 +22,10 @@ import (
 
 // Step is one pipeline step with its scripted program.
 type Step struct {
-	Name string
-	Fn   string
-	Ops  []simfn.Op
+	Name  string
+	Fn    string
+	Ops   []simfn.Op
+	Creds []string // names of Secrets (crossplane-system) passed as credentials
 }
 
 // Tmpl is a named P&T template.
@@ -70,6 +73,9 @@ type DrawParams struct {
 	Requirements   bool
 	Conn           bool
 	MaxXR          int
+	// Contract: workloads for the function-contract check (C04): up to four
+	// steps, context rewrites, credentials, more requirement programs.
+	Contract bool
 }
 
 var pool = []string{"a", "b", "c", "g1"}
@@ -98,6 +104,9 @@ func Draw(t *sim.Tape, p DrawParams) *Workload {
 		w.Pipeline = false
 	}
 	nSteps := 1 + t.Next(3)
+	if p.Contract {
+		nSteps = 1 + t.Next(4)
+	}
 	for i := 0; i < nSteps; i++ {
 		st := Step{Name: fmt.Sprintf("s%d", i), Fn: w.Fns[t.Next(2)]}
 		if i == 0 {
@@ -149,6 +158,19 @@ func Draw(t *sim.Tape, p DrawParams) *Workload {
 				st.Ops = append(st.Ops, simfn.Op{"op": "require", "mode": "chain", "name": "e0", "report": "y"})
 			case 3:
 				st.Ops = append(st.Ops, simfn.Op{"op": "require", "mode": "flip"})
+			}
+		}
+		if p.Contract {
+			if t.Next(4) == 0 {
+				st.Ops = append(st.Ops, simfn.Op{"op": "contextReset"})
+			}
+			for _, sn := range []string{"creds-a", "creds-b"} {
+				if t.Next(3) == 0 {
+					st.Creds = append(st.Creds, sn)
+				}
+			}
+			if t.Next(3) == 0 {
+				st.Ops = append(st.Ops, simfn.Op{"op": "result", "severity": []string{"normal", "warning"}[t.Next(2)], "message": "note-from-" + st.Name})
 			}
 		}
 		if p.Conn && t.Next(2) == 0 {
@@ -215,7 +237,12 @@ func (wl *Workload) Composition() *v1.Composition {
 			}
 			in := map[string]any{"apiVersion": "sim.fn/v1", "kind": "Program", "step": st.Name, "ops": ops}
 			b, _ := json.Marshal(in)
-			c.Spec.Pipeline = append(c.Spec.Pipeline, v1.PipelineStep{Step: st.Name, FunctionRef: v1.FunctionReference{Name: st.Fn}, Input: &kruntime.RawExtension{Raw: b}})
+			ps := v1.PipelineStep{Step: st.Name, FunctionRef: v1.FunctionReference{Name: st.Fn}, Input: &kruntime.RawExtension{Raw: b}}
+			for _, sn := range st.Creds {
+				ps.Credentials = append(ps.Credentials, v1.FunctionCredentials{Name: sn, Source: v1.FunctionCredentialsSourceSecret,
+					SecretRef: &xpv1.SecretReference{Namespace: "crossplane-system", Name: sn}})
+			}
+			c.Spec.Pipeline = append(c.Spec.Pipeline, ps)
 		}
 		return c
 	}
